@@ -284,6 +284,15 @@ func (t *verifImpl) DoTransfer(ctx interface{}, tr *Transfer, cb ProgressCallbac
 	if e.cfg.Upload {
 		rel = "upload"
 	}
+	// Every real adapter (basic, tus, ssh, custom) begins DoTransfer with t.Rel(<direction>), which refuses an
+	// action that has expired or expires within 5 s with a retriable ActionExpiredErr: the object then goes back
+	// into a batch request.  The scripted adapter does the same, through the real Rel/ActionSet.Get/time_tools.
+	if _, rerr := tr.Rel(rel); rerr != nil {
+		e.open[tr.Oid]--
+		e.obs.BatchErr[rerr.Error()] = append(e.obs.BatchErr[rerr.Error()], tr.Oid)
+		e.obs.Attempts = append(e.obs.Attempts, VerifAttempt{Kind: "adapter", Oid: tr.Oid, Start: start, End: vsched.Elapsed(), Outcome: "expired-at-adapter"})
+		return rerr
+	}
 	if a := tr.Actions[rel]; a != nil {
 		// what the SERVER advertised for this href, not what the (copied) action struct still says
 		exp, known := e.expiry[a.Href]
@@ -291,12 +300,15 @@ func (t *verifImpl) DoTransfer(ctx interface{}, tr *Transfer, cb ProgressCallbac
 			e.obs.Violations = append(e.obs.Violations, "C15:action-not-offered|the adapter was handed an action href the server never offered: "+a.Href)
 		}
 		if !exp.IsZero() && !exp.After(vsched.Now()) {
-			e.obs.Violations = append(e.obs.Violations, fmt.Sprintf("C15:expired-used|action of %s expired at +%v but was handed to the adapter at +%v", tr.Oid[:4], exp.Sub(vsched.Epoch), start))
+			e.obs.Violations = append(e.obs.Violations, fmt.Sprintf("C15:expired-used|action of %s expired at +%v but the adapter was handed it at +%v and its own expiry check (Transfer.Rel) let it through", tr.Oid[:4], exp.Sub(vsched.Epoch), start))
 		}
 	}
 	dur := time.Duration(0)
-	if e.env("duration", 2) == 1 {
+	switch e.env("duration", 3) {
+	case 1:
 		dur = 6 * time.Second
+	case 2: // longer than the shortest validity the server hands out (8 s): whatever waits behind this transfer expires
+		dur = 10 * time.Second
 	}
 	if dur > 0 {
 		time.Sleep(dur)
